@@ -276,7 +276,7 @@ func checkC07(c *core.Ctx) {
 		names = append(names, k)
 	}
 	sort.Strings(names)
-	neighbours := []string{"tx", "account", "commodity-fmt", "tx-unbalanced", "tx-trailing-comment-line"}
+	neighbours := []string{"tx", "account", "commodity-fmt", "tx-unbalanced", "tx-trailing-comment-line", "tx-rich"}
 	if c.Thorough() {
 		neighbours = names
 	}
